@@ -192,9 +192,89 @@ def all_scenarios(thorough=False):
                                               ('k6', 'packed'), ('k8', 'loose')], _repack(mode), target=60, repack=True))
     s.append(Scenario('loosen:packedz', mixed, _loosen('k3'), adds=['k3']))
     s.append(Scenario('loosen:packed', mixed, _loosen('k6'), adds=['k6']))
+    s += history_scenarios(common.seed(), 60 if thorough else 12)
     return s
 
 
-def delete_then_repack():
-    """A pre-state with deleted objects and an emptied pack, for repack scenarios (built by a custom builder)."""
-    return None
+class HistoryScenario(Scenario):
+    """A scenario whose pre-state is produced by a random history of public calls (so that the operation under test
+    meets deleted objects, holes, several packs, objects in both forms, emptied packs, ...)."""
+
+    def __init__(self, name, cfg, steps, op, adds=(), deletes=(), repack=False, default_sync=True):
+        super().__init__(name, [], op, adds=adds, deletes=deletes, target=cfg['target'], repack=repack, default_sync=default_sync)
+        self.cfg = cfg
+        self.steps = steps
+        self._acked = None
+
+    def acked(self):
+        return list(self._acked or [])
+
+    def build(self, folder, contents, hash_type='sha256'):
+        from disk_objectstore import Container  # pylint: disable=import-outside-toplevel
+        from .drivers import seq  # pylint: disable=import-outside-toplevel
+
+        base = os.path.dirname(folder)
+        table, full = seq.contents()
+        runner = seq.Runner.__new__(seq.Runner)
+        runner.Container = Container
+        runner.folder = folder
+        runner.base = base
+        runner.cfg = self.cfg
+        runner.table, runner.full = table, full
+        runner.hash = 'sha256'
+        runner.handles = {}
+        runner.current = 'h1'
+        runner.sources = {}
+        runner.norepack = True
+        runner.key_of = {name: hashlib.sha256(data).hexdigest() for name, data in full.table.items()}
+        runner.name_of = {v: k for k, v in runner.key_of.items()}
+        first = Container(folder)
+        first.init_container(pack_size_target=self.cfg['target'], loose_prefix_len=2, hash_type='sha256',
+                             compression_algorithm=f"zlib+{self.cfg['zlevel']}")
+        runner.handles['h1'] = first
+        for step in self.steps:
+            runner.call(step)
+        for cont in runner.handles.values():
+            cont.close()
+        for cont, _h, _f in runner.sources.values():
+            cont.close()
+        probe = Container(folder)
+        self._acked = [k for k in UNIVERSE if k in contents.table and probe.has_object(hashlib.sha256(contents[k]).hexdigest())]
+        probe.close()
+
+
+def history_scenarios(seed, count):
+    """Random pre-histories followed by one operation under test."""
+    from .drivers import seq  # pylint: disable=import-outside-toplevel
+    rng = common.rng('history-scenarios', seed)
+    out = []
+    pool = ['k1', 'k2', 'k3', 'k5', 'k6', 'k7', 'k8']
+    for index in range(count):
+        cfg = {'hash': 'sha256', 'prefix': 2, 'zlevel': rng.choice([1, 9]), 'target': rng.choice([60, 200, 10 ** 9])}
+        steps = []
+        for _ in range(rng.randint(3, 7)):
+            step = seq.random_step(rng, 'C11')
+            if step['name'] in ('import', 'stray', 'initagain', 'reopen'):
+                continue
+            steps.append(step)
+        kind = rng.choice(['pack', 'packpp', 'clean', 'repack', 'repack', 'delete', 'addpack', 'addpacknh', 'add'])
+        keys = [rng.choice(pool) for _ in range(rng.randint(1, 3))]
+        if kind == 'pack':
+            scen = HistoryScenario(f'h{index}:pack', cfg, steps, _pack(rng.choice(['NO', 'YES']), False))
+        elif kind == 'packpp':
+            scen = HistoryScenario(f'h{index}:pack-perpack', cfg, steps, _pack(rng.choice(['NO', 'YES', 'AUTO']), True))
+        elif kind == 'clean':
+            scen = HistoryScenario(f'h{index}:clean', cfg, steps, _clean(rng.random() < 0.3))
+        elif kind == 'repack':
+            scen = HistoryScenario(f'h{index}:repack', cfg, steps, _repack(rng.choice(['KEEP', 'YES', 'NO', 'AUTO'])), repack=True)
+        elif kind == 'delete':
+            scen = HistoryScenario(f'h{index}:delete', cfg, steps, _delete(keys), deletes=keys)
+        elif kind == 'addpack':
+            scen = HistoryScenario(f'h{index}:addpack', cfg, steps, _addpack(keys, rng.random() < 0.5, False, True), adds=keys)
+        elif kind == 'addpacknh':
+            scen = HistoryScenario(f'h{index}:addpack-noholes', cfg, steps, _addpack(keys, rng.random() < 0.5, True, rng.random() < 0.5),
+                                   adds=keys)
+        else:
+            scen = HistoryScenario(f'h{index}:add', cfg, steps, _add(keys[0]), adds=keys[:1])
+        out.append(scen)
+    return out
